@@ -238,4 +238,4 @@ def execute(case):
 def campaigns(tier):
     th = tier == "thorough"
     return [Campaign("group_sim", "hyp", execute=execute, strategy=lambda: c06.strategy("ownership"),
-                     examples=12000 if th else 640, setup=GS.setup, max_wall=1000 if th else 110, shrink_wall=40)]
+                     examples=12000 if th else 1280, setup=GS.setup, max_wall=1000 if th else 110, shrink_wall=40)]
